@@ -116,6 +116,18 @@ Qed.
 
 End RuntimeBool.
 
+(* for pos in range(len(l)) / range(0, len(l)): the loop over the positions of l *)
+Lemma for_from_seq_enum {X R St : Type} (l : list X) : forall a i (body : nat -> St -> ctl R St) s (k : St -> R),
+  for_from i (seq a (length l)) (fun _ => body) s k = for_from a l (fun pos _ => body pos) s k.
+Proof.
+  induction l as [|x r IH]; intros a i body s k; simpl; [reflexivity|].
+  destruct (body a s); [apply IH|reflexivity].
+Qed.
+
+Lemma for_range_enum {X R St : Type} (l : list X) (body : nat -> St -> ctl R St) s (k : St -> R) :
+  for_range 0 (length l) body s k = for_enum l (fun pos _ => body pos) s k.
+Proof. unfold for_range, for_each, for_enum. rewrite Nat.sub_0_r. apply for_from_seq_enum. Qed.
+
 Lemma sub_nth_error {X : Type} (d : X) (l : list X) (i : nat) (x : X) :
   nth_error l i = Some x -> sub d l i = x.
 Proof. intros H. unfold sub. now apply nth_error_nth. Qed.
@@ -130,6 +142,54 @@ Proof.
     + now inversion H.
     + f_equal. now apply IH.
 Qed.
+
+(* the same, for whatever way the new index k is written (i + 1, 1 + i, S i, i - 1, pred i, ...) *)
+Lemma set_nth_upd_gen (t : pt) pos v i k (f : nat -> nat) :
+  nth_error t pos = Some (v, i) -> k = f i -> set_nth t pos (v, k) = upd t pos f.
+Proof. intros H ->. now apply set_nth_upd. Qed.
+
+(* a loop that appends one value per element to a list: a map *)
+Lemma for_from_append_map {X Y R : Type} (g : X -> Y) (l : list X) : forall i (s : list Y) (k : list Y -> R),
+  for_from i l (fun _ x s => Continue (append s (g x))) s k = k (s ++ map g l).
+Proof.
+  induction l as [|a r IH]; intros i s k; simpl.
+  - now rewrite app_nil_r.
+  - rewrite IH. unfold append. now rewrite <- app_assoc.
+Qed.
+
+(* ------------------------------------------------------------------ *)
+(* tactics: the equalities are proved by normalising the translated    *)
+(* loop body (the lets are unfolded, a subscript at the loop position   *)
+(* becomes the element, `l[pos] = (v, k)` becomes the model's [upd],    *)
+(* calls of translated functions become the model's functions) and by   *)
+(* a case analysis on every comparison that occurs on either side.      *)
+(* They do not depend on the order of the lets, on how a condition is   *)
+(* split over nested ifs / `and` / `or` / `not`, on the orientation of   *)
+(* a comparison or on helpers having been inlined; they fail when the   *)
+(* two sides differ as functions of the comparisons.                    *)
+(* ------------------------------------------------------------------ *)
+
+(* one comparison of the condition c: case analysis (with the arithmetic fact for ints) *)
+Ltac katom c :=
+  lazymatch c with
+  | negb ?a => katom a
+  | andb ?a _ => katom a
+  | orb ?a _ => katom a
+  | (if ?a then _ else _) => katom a
+  | Nat.eqb ?a ?b => destruct (Nat.eqb_spec a b)
+  | Nat.ltb ?a ?b => destruct (Nat.ltb_spec a b)
+  | Nat.leb ?a ?b => destruct (Nat.leb_spec a b)
+  | _ => destruct c eqn:?
+  end.
+
+Ltac kdone :=
+  unfold append, extend; rewrite ?app_nil_r; reflexivity.
+
+Ltac kcases :=
+  cbn [negb andb orb];
+  try (exfalso; lia);
+  first [ kdone
+        | match goal with |- context [if ?c then _ else _] => katom c end; kcases ].
 
 (* ------------------------------------------------------------------ *)
 (* generated = model                                                   *)
@@ -181,6 +241,21 @@ Proof.
   pose proof (inrange_nth rs t pos v' i' Ht Hn). apply Nat.eqb_neq in He. lia.
 Qed.
 
+Lemma inrange_succ' (rs : ruleset) (t : pt) pos v i :
+  inrange rs t -> nth_error t pos = Some (v, i) ->
+  length (groups rs v) <> i + 1 -> inrange rs (upd t pos S).
+Proof. intros Ht Hn He. eapply inrange_succ; [exact Ht|exact Hn|]. now apply Nat.eqb_neq. Qed.
+
+(* the element at the loop position: t[j] is (v, i); t2 = copy.copy(t); t2[j] = (v, i -/+ 1) is upd *)
+Ltac knorm t j v i Hn :=
+  cbv beta zeta;
+  rewrite ?(sub_nth_error un t j (v, i) Hn);
+  cbn [fst snd];
+  rewrite ?(set_nth_upd_gen t j v i (i - 1) pred Hn (Nat.sub_1_r i)),
+          ?(set_nth_upd_gen t j v i (pred i) pred Hn eq_refl),
+          ?(set_nth_upd_gen t j v i (i + 1) S Hn (Nat.add_1_r i)),
+          ?(set_nth_upd_gen t j v i (1 + i) S Hn eq_refl).
+
 (* ---- _find_prob ---- *)
 Theorem kernel_find_prob_eq (rs : ruleset) (t : pt) (b : P) :
   inrange rs t -> py_find_prob up rs t b = find_prob rs t b.
@@ -196,24 +271,21 @@ Theorem kernel_my_child_eq (rs : ruleset) (child : pt) (base : P) (ppos : nat) (
   inrange rs child ->
   py_are_you_my_child up un rs child base ppos pprob = my_child rs child base ppos pprob.
 Proof.
-  intros Ht. unfold py_are_you_my_child, my_child, my_child_gen, for_enum. cbv zeta.
-  apply for_from_forall. intros j [v i] Hn. simpl (0 + j).
-  rewrite Hn, (sub_nth_error un child j (v, i) Hn). simpl fst. simpl snd.
-  destruct (Nat.eqb j ppos) eqn:Ej; [reflexivity|].
-  destruct i as [|i]; [reflexivity|].
-  simpl (Nat.eqb (S i) 0). cbv iota.
-  rewrite Nat.sub_1_r, (set_nth_upd child j v (S i) pred Hn).
-  rewrite (kernel_find_prob_eq rs _ base (inrange_pred rs child j Ht)).
-  destruct (plt (find_prob rs (upd child j pred) base) pprob); [reflexivity|].
-  destruct (peq (find_prob rs (upd child j pred) base) pprob); [|reflexivity].
-  destruct (Nat.ltb j ppos); reflexivity.
+  intros Ht. unfold py_are_you_my_child, my_child, my_child_gen. cbv zeta.
+  rewrite ?for_range_enum. unfold for_enum.
+  apply for_from_forall. intros j [v i] Hn. change (0 + j) with j.
+  knorm child j v i Hn. rewrite Hn.
+  pose proof (inrange_nth rs _ j v i Ht Hn) as Hi.
+  rewrite ?(kernel_find_prob_eq rs _ base (inrange_pred rs child j Ht)).
+  unfold plt, peq. destruct i as [|i]; kcases.
 Qed.
 
 (* ---- find_children ---- *)
 Theorem kernel_find_children_eq (rs : ruleset) (it : item) :
   inrange rs (ipt it) -> py_find_children up un rs it = find_children rs it.
 Proof.
-  intros Ht. unfold py_find_children, find_children, find_children_gen, for_enum. cbv zeta.
+  intros Ht. unfold py_find_children, find_children, find_children_gen. cbv zeta.
+  rewrite ?for_range_enum. unfold for_enum.
   rewrite for_from_acc with (h := fun pos =>
     match nth_error (ipt it) pos with
     | Some (v, i) =>
@@ -223,29 +295,27 @@ Proof.
         then [mk rs (itag it) c (ibase it)] else []
     | None => []
     end); [reflexivity|].
-  intros j [v i] s Hn. simpl (0 + j).
-  rewrite Hn, (sub_nth_error un (ipt it) j (v, i) Hn). simpl fst. simpl snd.
-  destruct (Nat.eqb (length (groups rs v)) (i + 1)) eqn:El; [now rewrite app_nil_r|].
-  cbv zeta. rewrite Nat.add_1_r, (set_nth_upd (ipt it) j v i S Hn).
-  assert (Hc : inrange rs (upd (ipt it) j S)) by (eapply inrange_succ; eassumption).
-  rewrite (kernel_my_child_eq rs _ (ibase it) j (iprob it) Hc).
-  fold (my_child rs (upd (ipt it) j S) (ibase it) j (iprob it)).
-  destruct (my_child rs (upd (ipt it) j S) (ibase it) j (iprob it)); [|now rewrite app_nil_r].
-  rewrite (kernel_find_prob_eq rs _ (ibase it) Hc). reflexivity.
+  intros j [v i] s Hn. change (0 + j) with j.
+  knorm (ipt it) j v i Hn. rewrite Hn.
+  pose proof (inrange_nth rs _ j v i Ht Hn) as Hi.       (* the index is in range: i + 1 <= number of groups *)
+  destruct (Nat.eqb_spec (length (groups rs v)) (i + 1)) as [El|El]; [kcases|].
+  assert (Hc : inrange rs (upd (ipt it) j S)) by (eapply inrange_succ'; eassumption).
+  rewrite ?(kernel_my_child_eq rs _ (ibase it) j (iprob it) Hc).
+  rewrite ?(kernel_find_prob_eq rs _ (ibase it) Hc).
+  unfold my_child. kcases.
 Qed.
 
 (* ---- is_parent_around: the source compares with <= (strict = false) ---- *)
 Theorem kernel_parent_around_eq (rs : ruleset) (it : item) (m : P) :
   inrange rs (ipt it) -> py_is_parent_around up un rs it m = parent_around_gen false rs it m.
 Proof.
-  intros Ht. unfold py_is_parent_around, parent_around_gen, for_enum. cbv zeta.
-  apply for_from_exists. intros j [v i] Hn. simpl (0 + j).
-  rewrite Hn, (sub_nth_error un (ipt it) j (v, i) Hn). simpl fst. simpl snd.
-  destruct i as [|i]; [reflexivity|].
-  simpl (Nat.eqb (S i) 0). cbv iota.
-  rewrite Nat.sub_1_r, (set_nth_upd (ipt it) j v (S i) pred Hn).
-  rewrite (kernel_find_prob_eq rs _ (ibase it) (inrange_pred rs (ipt it) j Ht)).
-  destruct (ple (find_prob rs (upd (ipt it) j pred) (ibase it)) m); reflexivity.
+  intros Ht. unfold py_is_parent_around, parent_around_gen. cbv zeta.
+  rewrite ?for_range_enum. unfold for_enum.
+  apply for_from_exists. intros j [v i] Hn. change (0 + j) with j.
+  knorm (ipt it) j v i Hn. rewrite Hn.
+  pose proof (inrange_nth rs _ j v i Ht Hn) as Hi.
+  rewrite ?(kernel_find_prob_eq rs _ (ibase it) (inrange_pred rs (ipt it) j Ht)).
+  unfold plt, peq. destruct i as [|i]; kcases.
 Qed.
 
 (* ---- initalize_base_structures: every variable a base structure names has a group ---- *)
@@ -256,9 +326,9 @@ Proof.
   intros Hb. unfold py_initalize_base_structures, init_items, for_enum. cbv zeta.
   rewrite for_from_map with (g := fun kb =>
     mk rs (fst kb) (map (fun v => (v, 0)) (brepl (snd kb))) (bprob (snd kb))); [reflexivity|].
-  intros j b s Hn. simpl (0 + j). unfold for_each.
-  rewrite for_from_fold with (f := fun t v => append t (v, 0)); [|reflexivity].
-  rewrite fold_append_map. simpl app.
+  intros j b s Hn. change (0 + j) with j. cbv beta zeta. unfold for_each.
+  (* the parse tree is built by a loop of appends or by a comprehension: a map either way *)
+  rewrite ?for_from_append_map. cbn [app]. cbv beta.
   rewrite kernel_find_prob_eq; [reflexivity|].
   unfold inrange. apply Forall_map. simpl.
   apply (Hb b). eapply nth_error_In; eassumption.
@@ -281,11 +351,11 @@ Proof.
   intros Qr Qp Qs.
   induction fuel as [|f IH]; intros it left Hb Hq Hp; [reflexivity|].
   pose proof (Qr _ Hq) as Ht.
-  simpl py_restore. simpl restore_gen. cbv zeta.
-  rewrite Hp.
-  destruct (ple (iprob it) m) eqn:Ele.
-  - rewrite (kernel_parent_around_eq rs it m Ht).
-    destruct (parent_around_gen false rs it m); reflexivity.
+  cbn [py_restore restore_gen]. cbv zeta.
+  pose proof Hp as Hp'. unfold plt in Hp'. apply negb_false_iff in Hp'.
+  unfold plt, peq. rewrite ?Hp'.
+  destruct (ple (iprob it) m) eqn:Ele; cbn [negb andb orb].
+  - rewrite ?(kernel_parent_around_eq rs it m Ht). kcases.
   - unfold for_range, for_each.
     rewrite for_from_acc_each with (h := fun pos =>
       match nth_error (ipt it) pos with
@@ -297,14 +367,13 @@ Proof.
     intros j s Hj. apply in_seq in Hj.
     destruct (nth_error (ipt it) j) as [[v i]|] eqn:Hn;
       [|apply nth_error_None in Hn; lia].
-    rewrite (sub_nth_error un (ipt it) j (v, i) Hn). simpl fst. simpl snd.
-    destruct (Nat.eqb (length (groups rs v)) (i + 1)) eqn:El; [now rewrite app_nil_r|].
-    rewrite Nat.add_1_r, (set_nth_upd (ipt it) j v i S Hn).
-    pose proof (Qs _ _ _ _ Hq Hn El) as Hqc.
-    rewrite (kernel_find_prob_eq rs _ (ibase it) (Qr _ Hqc)).
-    fold (mk rs (itag it) (upd (ipt it) j S) (ibase it)).
-    unfold extend. rewrite IH; [reflexivity|exact Hb|exact Hqc|].
-    simpl. rewrite Hb. now apply Qp.
+    knorm (ipt it) j v i Hn.
+    pose proof (inrange_nth rs _ j v i Ht Hn) as Hi.
+    destruct (Nat.eqb_spec (length (groups rs v)) (i + 1)) as [El|El]; [kcases|].
+    pose proof (Qs _ _ _ _ Hq Hn (proj2 (Nat.eqb_neq _ _) El)) as Hqc.
+    rewrite ?(kernel_find_prob_eq rs _ (ibase it) (Qr _ Hqc)).
+    rewrite IH; [unfold mk; kcases|exact Hb|exact Hqc|].
+    cbn [iprob]. rewrite Hb. now apply Qp.
 Qed.
 
 Theorem kernel_restore_eq (rs : ruleset) (m mn : P) (fuel : nat) (it : item) (left : nat) :
@@ -441,6 +510,23 @@ Proof.
   apply In_all_preterminals in Hit.
   destruct (good_ok rs Hwf it Hit) as [Hb Ht].
   apply kernel_restore_eq_ok; auto. now apply (good_iprob_ok rs Hwf).
+Qed.
+
+(* C01 (every prefix sorted, frontier below everything emitted; the reported probability is the
+   left-to-right product), stated for the loop that calls the translated functions *)
+Theorem kernel_sorted_every_prefix pop n : pop_ok_okb pop ->
+  nonincreasing (rev (emitted (kernel_run pop rs n (kernel_start rs)))) /\
+  (forall e q, In e (emitted (kernel_run pop rs n (kernel_start rs))) ->
+               In q (pending (kernel_run pop rs n (kernel_start rs))) -> ple (iprob q) (iprob e) = true).
+Proof. intros Hpop. rewrite (kernel_run_eq pop n Hpop). exact (C01_sorted_okb rs Hwf pop n Hpop). Qed.
+
+Theorem kernel_prob_is_product pop n it : pop_ok_okb pop ->
+  In it (emitted (kernel_run pop rs n (kernel_start rs)) ++ pending (kernel_run pop rs n (kernel_start rs))) ->
+  iprob it = py_find_prob up rs (ipt it) (ibase it) /\ In it (all_preterminals rs).
+Proof.
+  intros Hpop. rewrite (kernel_run_eq pop n Hpop). intros Hin.
+  destruct (C01_prob_is_product_okb rs Hwf pop n it Hpop Hin) as [Hp Ha]. split; [|exact Ha].
+  rewrite kernel_find_prob_eq; [exact Hp|]. apply good_inrange. now apply In_all_preterminals.
 Qed.
 
 (* C02 and the frontier theorem of C08, stated for the loops that call the
